@@ -481,7 +481,12 @@ fn apply_content_edits_with_content(
     let original_permissions = original_metadata.permissions();
 
     {
-        let mut temp_file = File::create(&temp_path)
+        // create_new: an existing entry of that name (the user's own file, a symlink, a leftover)
+        // is never truncated or written through
+        let mut temp_file = fs::OpenOptions::new()
+            .write(true)
+            .create_new(true)
+            .open(&temp_path)
             .with_context(|| format!("Failed to create temp file {}", temp_path.display()))?;
         temp_file.write_all(modified.as_bytes())?;
         temp_file.sync_all()?; // fsync
